@@ -601,8 +601,8 @@ pub fn def() -> PropDef {
         ],
         subs: || {
             vec![
-                Box::new(Sub::<Case> { name: "s3-race", cases: |t| t.scale(100_000, 8), strategy: strategy_s3, exec: exec_s3 }),
-                Box::new(Sub::<LocalCase> { name: "local-seq", cases: |t| t.scale(60_000, 5), strategy: strategy_local, exec: exec_local }),
+                Box::new(Sub::<Case> { name: "s3-race", cases: |t| t.scale(300_000, 6), strategy: strategy_s3, exec: exec_s3 }),
+                Box::new(Sub::<LocalCase> { name: "local-seq", cases: |t| t.scale(150_000, 4), strategy: strategy_local, exec: exec_local }),
             ]
         },
     }
